@@ -208,6 +208,7 @@ typedef struct
     Bit32u status_time;
 
     /*EXTRA*/
+    Bit32u chip_type; /* ym3438_mode_* flags of this chip (was a process-wide variable) */
     Bit32u mute[7];
     Bit32s rateratio;
     Bit32s samplecnt;
@@ -226,7 +227,7 @@ typedef struct
 
 /* EXTRA, original was "void OPN2_Reset(ym3438_t *chip)" */
 void OPN2_Reset(ym3438_t *chip, Bit32u rate, Bit32u clock);
-void OPN2_SetChipType(Bit32u type);
+void OPN2_SetChipType(ym3438_t *chip, Bit32u type);
 void OPN2_Clock(ym3438_t *chip, Bit16s *buffer);
 void OPN2_Write(ym3438_t *chip, Bit32u port, Bit8u data);
 void OPN2_SetTestPin(ym3438_t *chip, Bit32u value);
